@@ -368,6 +368,11 @@ namespace OP2Utility::Archive
 		}
 
 		CountValidEntries();
+
+		// Each packed file is named by the filename table entry of the same index
+		if (m_Count > m_StringTable.size()) {
+			throw std::runtime_error("The index table lists more files than there are filenames in volume " + m_ArchiveFilename);
+		}
 	}
 
 	void VolFile::ReadStringTable()
